@@ -83,6 +83,8 @@ type cdata struct {
 }
 
 type sys struct {
+	nclear int    // clearing calls so far: they alternate between SetContext(nil) and ClearContext()
+	curCtx uint64 // the root last installed (0 none)
 	c       *ctl.Ctl
 	w       *hist.W
 	rc      *refcount.RefCount[uint64]
@@ -477,7 +479,19 @@ func (s *sys) exec(ev []uint64) (obs []uint64, ok bool) {
 			if ev[1] != 0 {
 				ctx = s.roots[ev[1]]
 			}
-			u = s.rc.SetContext(ctx)
+			if ev[1] == 0 {
+				s.nclear++
+			}
+			if ev[1] == 0 && s.nclear%2 == 0 {
+				// every second clearing goes through the wrapper ClearContext() (it returns nothing: "updated" is what
+				// SetContext(nil) documents, i.e. whether a context was installed)
+				s.rc.ClearContext()
+				u = s.curCtx != 0
+				s.w.Count("api.clearcontext_wrapper", 1)
+			} else {
+				u = s.rc.SetContext(ctx)
+			}
+			s.curCtx = ev[1]
 		})
 		rets = []uint64{b2u(u)}
 	case 2:
